@@ -1,2 +1,215 @@
-import DuneVerif.Common.Proto
-def main : IO Unit := DV.runDriver fun _ => "bad-op"
+import DuneVerif.Model.C12
+/-!
+line-protocol driver for C12.  Byte strings travel as lower-case hex (`-` = empty string).
+
+  ini <ow> <pre> <doc>                      readINITree(pre, overwrite) into an empty tree, then readINITree(doc, ow)
+  rt <ow> : item;item;…                     the same for documents given as items of the documented dialect
+                                            (`P` separates the first source from the second), rendered by `renderDoc`
+       B,ws | C,ws,text | H,ws1,ws2,p,ws3,junk | A,ws1,key,ws2,ws3,q,value,ws4,cmt     q ∈ n|s|d, cmt ∈ n|c<hex>
+  hostile <doc>                             arbitrary bytes: the only claim is "returns or throws a Dune exception";
+                                            the answer is the constant `done` (no model comparison for this stream)
+  opt <pre> <arg>…                          readOptions, argv[1..]
+  nopt <required> <allowMore> <ow> <pre> <nkw> <kw>… <arg>…      readNamedOptions
+  get <T> <text>                            pt["k"]=text; pt.get<T>("k")
+  shw <int>                                 decimal text of a built-in integer
+  tq <key>=<value>,… : probe;probe;…        tree built with operator[], then hk|hs|gs|sk|skf <key>, gd|gi <key> <default>
+-/
+open DV DV.C12
+
+def hx (s : Str) : String :=
+  if s = [] then "-" else String.ofList (s.flatMap fun c => [hexChar (c.toNat / 16), hexChar (c.toNat % 16)])
+
+def unhexGo : List Char → Option Str
+  | [] => some []
+  | [_] => none
+  | a :: b :: r =>
+    match hexDigitVal? a, hexDigitVal? b, unhexGo r with
+    | some x, some y, some t => some (Char.ofNat (x * 16 + y) :: t)
+    | _, _, _ => none
+
+def unhex (s : String) : Option Str := if s = "-" then some [] else if s = "" then none else unhexGo s.toList
+
+def showB (b : Bool) : String := if b then "true" else "false"
+def showErr : Err → String
+  | .range => "ERR:Range"
+  | .parser => "ERR:Parser"
+  | .help => "ERR:Help"
+  | .fuel => "ERR:Fuel"
+
+-- the tree as seen through getValueKeys / getSubKeys / operator[] const / sub() const
+mutual
+def dumpTree : Tree → String
+  | .node vals subs =>
+    "{" ++ ",".intercalate (vals.map fun kv =>
+        hx kv.1 ++ "=" ++ (if aHas kv.1 subs then "!" else hx kv.2))
+      ++ "|" ++ dumpSubs vals subs ++ "}"
+def dumpSubs (vals : List (Str × Str)) : List (Str × Tree) → String
+  | [] => ""
+  | (n, t) :: r =>
+    hx n ++ (if aHas n vals then "!" else dumpTree t) ++ (if r.isEmpty then "" else "," ++ dumpSubs vals r)
+end
+
+def showRes : Except Err Tree → String
+  | .ok t => dumpTree t
+  | .error e => showErr e
+
+def parseBoolTok (s : String) : Option Bool := if s = "1" then some true else if s = "0" then some false else none
+
+def twoDocs (ow : Bool) (pre doc : Str) : Except Err Tree :=
+  match parseINI pre .empty true with
+  | .error e => .error e
+  | .ok t => parseINI doc t ow
+
+def parseItem (s : String) : Option Item :=
+  match s.splitOn "," with
+  | ["B", ws] => (unhex ws).map .blank
+  | ["C", ws, t] => do pure (.comment (← unhex ws) (← unhex t))
+  | ["H", a, b, p, c, j] => do pure (.header (← unhex a) (← unhex b) (← unhex p) (← unhex c) (← unhex j))
+  | ["A", a, k, b, c, q, v, d, cm] => do
+    let q ← (if q = "n" then some none else if q = "s" then some (some '\'') else if q = "d" then some (some '"') else none)
+    let cm ← (if cm = "n" then some none else
+      match cm.toList with
+      | 'c' :: r => (unhex (String.ofList r)).map some
+      | _ => none)
+    pure (.assign (← unhex a) (← unhex k) (← unhex b) (← unhex c) q (← unhex v) (← unhex d) cm)
+  | _ => none
+
+/-- split the item list at the first `P` -/
+def splitP : List String → List String × List String
+  | [] => ([], [])
+  | x :: r => if x = "P" then ([], r) else let (a, b) := splitP r; (x :: a, b)
+
+def intTy? (s : String) : Option IntTy :=
+  match s with
+  | "int" => some ⟨true, 32⟩ | "uint" => some ⟨false, 32⟩
+  | "long" => some ⟨true, 64⟩ | "ulong" => some ⟨false, 64⟩
+  | "short" => some ⟨true, 16⟩ | "ushort" => some ⟨false, 16⟩
+  | _ => none
+
+def showOpt (f : α → String) : Option α → String
+  | none => "ERR:Range"
+  | some v => f v
+def showDbl (bits : Nat) : String :=
+  let h := toHex bits
+  "d:" ++ String.ofList (List.replicate (16 - h.length) '0') ++ h
+def showIntL (l : List Int) : String := showList l
+def showStrL (l : List Str) : String := "[" ++ ",".intercalate (l.map hx) ++ "]"
+def showBoolL (l : List Bool) : String := "[" ++ ",".intercalate (l.map showB) ++ "]"
+def showDblL (l : List Nat) : String := "[" ++ ",".intercalate (l.map showDbl) ++ "]"
+
+/-- `xyN` → (`xy`, N) -/
+def splitSuffixNat (s : String) : Option (String × Nat) :=
+  let cs := s.toList
+  let pre := cs.takeWhile (fun c => !c.isDigit)
+  let suf := cs.dropWhile (fun c => !c.isDigit)
+  if suf.isEmpty then none else (String.ofList suf).toNat?.map fun n => (String.ofList pre, n)
+
+def getOp (ty : String) (text : Str) : String :=
+  match intTy? ty with
+  | some t => showOpt toString (parseInt t text)
+  | none =>
+    match ty with
+    | "bool" => showOpt showB (parseBool text)
+    | "str" => "s:" ++ hx (parseString text)
+    | "dbl" => showOpt showDbl (parseDouble text)
+    | "vi" => showOpt showIntL (parseVector (parseInt ⟨true, 32⟩) text)
+    | "vu" => showOpt showIntL (parseVector (parseInt ⟨false, 32⟩) text)
+    | "vb" => showOpt showBoolL (parseVector parseBool text)
+    | "vs" => showOpt showStrL (parseVector (fun s => some (parseString s)) text)
+    | "vd" => showOpt showDblL (parseVector parseDouble text)
+    | _ =>
+      match splitSuffixNat ty with
+      | some ("ai", n) => showOpt showIntL (parseRange (extractInt ⟨true, 32⟩) n text)
+      | some ("fi", n) => showOpt showIntL (parseRange (extractInt ⟨true, 32⟩) n text)
+      | some ("au", n) => showOpt showIntL (parseRange (extractInt ⟨false, 32⟩) n text)
+      | some ("as", n) => showOpt showStrL (parseRange extractWord n text)
+      | some ("ad", n) => showOpt showDblL (parseRange extractDouble n text)
+      | some ("bs", n) => showOpt showBoolL (parseBitset n text)
+      | _ => "bad-op"
+
+def parseKV (s : String) : Option (Str × Str) :=
+  match s.splitOn "=" with
+  | [k, v] => do pure (← unhex k, ← unhex v)
+  | _ => none
+
+def buildTree : List (Str × Str) → Tree → Except Err Tree
+  | [], t => .ok t
+  | (k, v) :: r, t => match t.set k v with
+    | .error e => .error e
+    | .ok t' => buildTree r t'
+
+def showExB : Except Err Bool → String
+  | .ok b => showB b
+  | .error e => showErr e
+
+def probe (t : Tree) (p : String) : String :=
+  match tokens p with
+  | ["hk", k] => match unhex k with | some k => showExB (t.hasKey k) | none => "bad-op"
+  | ["hs", k] => match unhex k with | some k => showExB (t.hasSub k) | none => "bad-op"
+  | ["gs", k] => match unhex k with
+    | some k => (match t.get? k with | some v => hx v | none => "ERR:Range")
+    | none => "bad-op"
+  | ["sk", k] => match unhex k with | some k => showRes (t.sub k false) | none => "bad-op"
+  | ["skf", k] => match unhex k with | some k => showRes (t.sub k true) | none => "bad-op"
+  | ["gd", k, d] => match unhex k, unhex d with
+    | some k, some d => (match t.getD (fun s => some s) k d with | .ok v => hx v | .error e => showErr e)
+    | _, _ => "bad-op"
+  | ["gi", k, d] => match unhex k, d.toInt? with
+    | some k, some d => (match t.getD (parseInt ⟨true, 32⟩) k d with | .ok v => toString v | .error e => showErr e)
+    | _, _ => "bad-op"
+  | _ => "bad-op"
+
+def handle (line : String) : String :=
+  let (head, tail) : String × Option String :=
+    match line.splitOn " : " with
+    | [h] => (h, none)
+    | [h, t] => (h, some t)
+    | _ => ("", none)
+  match tokens head, tail with
+  | ["ini", ow, pre, doc], none =>
+    match parseBoolTok ow, unhex pre, unhex doc with
+    | some ow, some pre, some doc => showRes (twoDocs ow pre doc)
+    | _, _, _ => "bad-op"
+  | ["rt", ow], some t =>
+    match parseBoolTok ow with
+    | none => "bad-op"
+    | some ow =>
+      let toks := (t.splitOn ";").filter (· ≠ "")
+      let (a, b) := if toks.contains "P" then splitP toks else ([], toks)
+      match a.mapM parseItem, b.mapM parseItem with
+      | some pre, some main =>
+        let d1 := renderDoc pre
+        let d2 := renderDoc main
+        "wf=" ++ showB ((pre ++ main).all Item.wf) ++ " pre=" ++ hx d1 ++ " doc=" ++ hx d2 ++ " " ++ showRes (twoDocs ow d1 d2)
+      | _, _ => "bad-op"
+  | ["hostile", doc], none => match unhex doc with | some _ => "done" | none => "bad-op"
+  | "opt" :: pre :: args, none =>
+    match unhex pre, args.mapM unhex with
+    | some pre, some args =>
+      (match parseINI pre .empty true with
+       | .error e => showErr e
+       | .ok t => showRes (readOptions args t))
+    | _, _ => "bad-op"
+  | "nopt" :: req :: am :: ow :: pre :: nkw :: rest, none =>
+    match req.toNat?, parseBoolTok am, parseBoolTok ow, unhex pre, nkw.toNat? with
+    | some req, some am, some ow, some pre, some nkw =>
+      if rest.length < nkw then "bad-op" else
+      match (rest.take nkw).mapM unhex, (rest.drop nkw).mapM unhex with
+      | some kws, some args =>
+        (match parseINI pre .empty true with
+         | .error e => showErr e
+         | .ok t => showRes (readNamedOptions args t kws req am ow))
+      | _, _ => "bad-op"
+    | _, _, _, _, _ => "bad-op"
+  | ["get", ty, text], none => match unhex text with | some text => getOp ty text | none => "bad-op"
+  | ["shw", n], none => match n.toInt? with | some n => hx (showInt n) | none => "bad-op"
+  | ["tq", kvs], some t =>
+    match (if kvs = "-" then some [] else (kvs.splitOn ",").mapM parseKV) with
+    | none => "bad-op"
+    | some kvs =>
+      match buildTree kvs .empty with
+      | .error e => showErr e
+      | .ok tree => ",".intercalate (((t.splitOn ";").filter (· ≠ "")).map (probe tree))
+  | _, _ => "bad-op"
+
+def main : IO Unit := runDriver handle
